@@ -36,9 +36,9 @@ impl Check for C10 {
     }
     fn n_runs(&self, thorough: bool) -> u64 {
         if thorough {
-            60_000
+            1_200_000
         } else {
-            2_000
+            24_000
         }
     }
     fn gen_plan(&self, seed: u64, _idx: u64, _t: bool) -> Value {
